@@ -415,6 +415,14 @@ pub fn do_op(sh: &Arc<Shared>, local: &mut TaskLocal, op: &Op) -> OpResult {
         }
         Op::Absorb { h, data, off, len, via } => {
             let bytes = d(sh, *data, *off, *len)?;
+            // C07: the caller's buffer sits flush against an inaccessible page
+            let gb;
+            let bytes: &[u8] = if sh.plan.cfg.guard_alloc {
+                gb = crate::guard::GuardBuf::with_bytes(bytes, crate::guard::place_of((*off as u8) ^ (*len as u8).rotate_left(3) ^ (*data as u8)));
+                unsafe { std::slice::from_raw_parts(gb.ptr(), gb.len()) }
+            } else {
+                bytes
+            };
             let hs = get!(local, *h, H);
             if !absorb_domain_ok(hs, bytes.len()) {
                 return Err(OpErr::Skip);
@@ -640,21 +648,29 @@ pub fn do_op(sh: &Arc<Shared>, local: &mut TaskLocal, op: &Op) -> OpResult {
             if (rs.pos as u128) + (n as u128) > MAX_POS as u128 {
                 return Err(OpErr::Skip);
             }
-            let mut out = vec![0x5Au8; n];
+            let gout;
+            let mut vout;
+            let out: &mut [u8] = if sh.plan.cfg.guard_alloc {
+                gout = crate::guard::GuardBuf::new(n, crate::guard::place_of((n as u8) ^ (rs.pos as u8).rotate_left(2)));
+                unsafe { std::slice::from_raw_parts_mut(gout.ptr(), n) }
+            } else {
+                vout = vec![0x5Au8; n];
+                &mut vout[..]
+            };
             let got_n: usize = match via {
                 ReadVia::Fill => {
-                    rs.r.fill(&mut out);
+                    rs.r.fill(out);
                     n
                 }
                 ReadVia::XofReader => {
-                    blake3::traits::digest::XofReader::read(&mut rs.r, &mut out);
+                    blake3::traits::digest::XofReader::read(&mut rs.r, out);
                     n
                 }
-                ReadVia::Read => match rs.r.read(&mut out) {
+                ReadVia::Read => match rs.r.read(out) {
                     Ok(k) => k,
                     Err(e) => return viol("result-mismatch", format!("Read::read failed: {e}")),
                 },
-                ReadVia::ReadExact => match rs.r.read_exact(&mut out) {
+                ReadVia::ReadExact => match rs.r.read_exact(out) {
                     Ok(()) => n,
                     Err(e) => return viol("result-mismatch", format!("read_exact failed: {e}")),
                 },
@@ -687,8 +703,8 @@ pub fn do_op(sh: &Arc<Shared>, local: &mut TaskLocal, op: &Op) -> OpResult {
                 return viol("result-mismatch", format!("{:?} returned {} for a {}-byte buffer", via, got_n, n));
             }
             let want = rs.node.stream(rs.pos, n);
-            if out != want {
-                let i = first_diff(&out, &want);
+            if out[..] != want[..] {
+                let i = first_diff(out, &want);
                 return viol(
                     "result-mismatch",
                     format!("output stream differs from spec at byte {} of a {}-byte read at position {}", i, n, rs.pos),
@@ -720,7 +736,7 @@ pub fn do_op(sh: &Arc<Shared>, local: &mut TaskLocal, op: &Op) -> OpResult {
             f.u64((n as u64).min(3 * 64) / 32);
             f.u64((p0 / 64 >= 1 << 32) as u64);
             sh.shape(f.0);
-            Ok(Fnv::of(&out) ^ rs.pos)
+            Ok(Fnv::of(out) ^ rs.pos)
         }
         Op::SetPosition { r, p } => {
             let rs = get!(local, *r, R);
@@ -814,6 +830,7 @@ pub fn do_op(sh: &Arc<Shared>, local: &mut TaskLocal, op: &Op) -> OpResult {
         | Op::GutsChunk { .. }
         | Op::GutsParent { .. } => crate::ops2::do_op2(sh, local, op),
         Op::DebugFmt { .. } | Op::Zeroize { .. } => crate::ops2::do_op2(sh, local, op),
+        Op::Kernel { k, a } => crate::kernels::do_kernel(sh, *k, a),
         Op::CliFile { .. }
         | Op::CliFsFault { .. }
         | Op::CliHash { .. }
